@@ -36,12 +36,16 @@ def parsePex (j : Json) (k : String) : Nat → Bool :=
 def parseDefs (j : Json) (k : String) : List (String × Def) :=
   (jArr j k).map fun d => (jStr d "owner", { id := jStr d "id", key := jNat d "key" })
 
-/-- durations, reserved list and marshal order come from the regenerated facts -/
+/-- durations (ms in the facts, ns on the wire), reserved list and marshal order come from the regenerated facts -/
+def msToNs (ms : Nat) : Nat := ms * 1000000
+
 def cfgOf (j : Json) : Cfg :=
-  { maxValidity := Facts.C02.s2sMaxValidityMs, nonceTtl := Facts.C02.s2sNonceTtlMs,
-    tokenValidity := Facts.C02.accessTokenValidityMs, tokenTtl := Facts.C02.accessTokenStoreTtlMs,
-    codeTtl := Facts.C02.oauthCodeStoreTtlMs, oauthNonceTtl := Facts.C02.oauthNonceStoreTtlMs,
-    stateTtl := Facts.C02.oauthClientStateStoreTtlMs, verifierSkew := Facts.C02.verifierMaxSkewMs,
+  { maxValidity := msToNs Facts.C02.s2sMaxValidityMs, nonceTtl := msToNs Facts.C02.s2sNonceTtlMs,
+    tokenValidity := msToNs Facts.C02.accessTokenValidityMs, tokenTtl := msToNs Facts.C02.accessTokenStoreTtlMs,
+    codeTtl := msToNs Facts.C02.oauthCodeStoreTtlMs, oauthNonceTtl := msToNs Facts.C02.oauthNonceStoreTtlMs,
+    stateTtl := msToNs Facts.C02.oauthClientStateStoreTtlMs, verifierSkew := msToNs Facts.C02.verifierMaxSkewMs,
+    second := 1000000000,
+    emptyVpChecked := Facts.C02.emptyVpBranchComparesExpected,
     reserved := Facts.C02.reservedClaims,
     marshalOrder := Facts.C02.marshalAssignOrder,
     publicURL := jStr j "publicURL", subjects := jStrs j "subjects",
